@@ -33,6 +33,10 @@ Fixpoint skip_trail (l : list N) : nat :=
   | b :: r => if is_lead_or_ascii b then O else S (skip_trail r)
   end.
 
+(* the parsing machine looks at no more than max_rune_units = 4 bytes per character (rune_range in lug.hpp) *)
+Definition rune_window (l : list N) : list N := firstn 4 l.
+Definition skip_trail_w (r : list N) : nat := skip_trail (firstn 3 r).
+
 (* utf8::decode_rune.  Result: (number of bytes consumed, rune).
    The loop feeds one octet at a time; on accept it returns; on reject it stops *without* consuming
    the rejecting octet unless that octet was the first of the sequence, then skips trailing
@@ -51,6 +55,8 @@ Fixpoint decode_loop (l : list N) (rune state : N) (consumed : nat) : nat * N :=
   end.
 
 Definition decode_rune (l : list N) : nat * N := decode_loop l 0 st_accept O.
+(* what the parsing machine decodes: one rune from the window *)
+Definition decode_rune_w (l : list N) : nat * N := decode_rune (rune_window l).
 
 Definition next_rune (l : list N) : list N := skipn (fst (decode_rune l)) l.
 
